@@ -359,12 +359,122 @@ def link_closures(F, fus):
     return fus
 
 
+def _ret_int_nodes(fu):
+    """nodes of the integer operands that make up the callee's return value (through tuple / Ok / Some wrappers)"""
+    body = fu.body
+    out = []
+    seen = set()
+    work = [0]
+    while work:
+        l = work.pop()
+        if l in seen:
+            continue
+        seen.add(l)
+        for bb, si, st in body.assigns():
+            if st["p"]["l"] != l or st["p"]["p"]:
+                continue
+            rv = st["rv"]
+            if rv["k"] == "agg":
+                for x in rv["xs"]:
+                    if x["k"] in ("copy", "move"):
+                        if is_int_ty(body.ty(x["t"])):
+                            nd = node_of(body, x)
+                            if nd:
+                                out.append(nd)
+                        elif not x["p"]:
+                            work.append(x["l"])
+            elif rv["k"] == "use" and rv["x"]["k"] in ("copy", "move"):
+                x = rv["x"]
+                if is_int_ty(body.ty(x["t"])):
+                    nd = node_of(body, x)
+                    if nd:
+                        out.append(nd)
+                elif not x["p"]:
+                    work.append(x["l"])
+    return out
+
+
+def link_calls(F, fus):
+    """Context-insensitive flow of unit labels through calls of the crate's own functions: a labelled integer argument
+    labels the callee's parameter; the labels of the callee's returned integers label every integer of the caller that
+    derives from the call result."""
+    from . import prov
+    by_q = {fu.fn.q: fu for fu in fus}
+    for _ in range(3):
+        changed = False
+        for fu in list(fus):
+            body = fu.body
+            P = None
+            for bb, t in body.calls():
+                f = t["f"]
+                if f["k"] != "def" or not f.get("rlocal"):
+                    continue
+                name = callee_name(t) or ""
+                if "{closure" in name:
+                    continue
+                g = F.fn_opt(name)
+                if g is None or g.crate.name != fu.fn.crate.name:
+                    continue
+                iargs = [(i, node_of(body, x)) for i, x in enumerate(t["xs"])
+                         if x["k"] in ("copy", "move") and is_int_ty(body.ty(x["t"]))]
+                iargs = [(i, nd) for i, nd in iargs if nd]
+                if not iargs:
+                    continue
+                tgt = by_q.get(name)
+                passed = False
+                for i, nd in iargs:
+                    labs = fu.uf.labs(nd) & {"Bytes", "Chars"}
+                    if not labs:
+                        continue
+                    if tgt is None:
+                        tgt = FnUnits(F, g)
+                        by_q[name] = tgt
+                        fus.append(tgt)
+                    pn = ("p", str(i + 1))
+                    for lab in labs:
+                        if lab not in tgt.uf.labs(pn):
+                            why = [w[1] for w in fu.uf.reasons(nd) if w[0] == lab][:1]
+                            tgt.uf.label(pn, lab, "argument of %s: %s" % (fu.fn.q.rsplit("::", 1)[1], why[0] if why else "?"))
+                            changed = True
+                    passed = True
+                if tgt is None:
+                    continue
+                # labels of the returned integers flow to what the caller derives from the result
+                rl = {}
+                for rn in _ret_int_nodes(tgt):
+                    for lab in tgt.uf.labs(rn) & {"Bytes", "Chars"}:
+                        rl.setdefault(lab, [w[1] for w in tgt.uf.reasons(rn) if w[0] == lab][:1])
+                if not rl:
+                    continue
+                if P is None:
+                    P = prov.Prov(F, body)
+                for l in range(len(body.locals)):
+                    if not is_int_ty(body.local_ty(l)):
+                        continue
+                    org = P._origins_local(l, True, set())
+                    if any(o[0] == "call" and o[1] == name for o in org):
+                        nd = ("p", str(l))
+                        for lab, why in rl.items():
+                            if lab not in fu.uf.labs(nd):
+                                fu.uf.label(nd, lab, "result of %s: %s" % (name.rsplit("::", 1)[1], why[0] if why else "?"))
+                                changed = True
+        if not changed:
+            break
+    for fu in fus:
+        for kind, node, site, what in fu.sinks:
+            if kind == "derive-trunc":
+                res, x = node
+                if ("Bytes" in fu.uf.labs(x) or "Trunc" in fu.uf.labs(x)) and "Trunc" not in fu.uf.labs(res):
+                    fu.uf.label(res, "Trunc", "%s of a byte quantity at %s" % (what, site))
+    return fus
+
+
 _CACHE = {}
 
 
 def get(F):
     if id(F) not in _CACHE:
-        _CACHE[id(F)] = link_closures(F, analyse(F))
+        _CACHE[id(F)] = link_calls(F, link_closures(F, analyse(F)))
     return _CACHE[id(F)]
 
 
